@@ -1935,17 +1935,34 @@ prog_stream(const parg *pa)
 		(void) nng_aio_set_iov(aio2, 1, &iov);
 		note_call("nng_stream_send");
 		nng_stream_send(from, aio1);
-		note_call("nng_stream_recv");
-		nng_stream_recv(to, aio2);
+		// a byte stream: the 5 bytes may arrive in pieces (ws frames)
+		size_t got = 0;
+		int    s2  = 0;
+		while (got < 5) {
+			iov.iov_buf = buf2 + got;
+			iov.iov_len = 5 - got;
+			(void) nng_aio_set_iov(aio2, 1, &iov);
+			note_call("nng_stream_recv");
+			nng_stream_recv(to, aio2);
+			nng_aio_wait(aio2);
+			s2 = ck_("nng_stream_recv", A_CONN | A_TMO, (int) nng_aio_result(aio2));
+			if (s2 != 0) {
+				break;
+			}
+			if (nng_aio_count(aio2) == 0 || nng_aio_count(aio2) > 5 - got) {
+				note_violation("bad-data:stream recv count %zu", nng_aio_count(aio2));
+				s2 = -1;
+				break;
+			}
+			got += nng_aio_count(aio2);
+		}
 		nng_aio_wait(aio1);
-		nng_aio_wait(aio2);
 		int s1 = ck_("nng_stream_send", A_CONN | A_TMO, (int) nng_aio_result(aio1));
-		int s2 = ck_("nng_stream_recv", A_CONN | A_TMO, (int) nng_aio_result(aio2));
 		if (s1 != 0 || s2 != 0) {
 			break;
 		}
-		if (nng_aio_count(aio2) != 5 || memcmp(buf1, buf2, 5) != 0) {
-			note_violation("bad-data:stream payload differs (count %zu)", nng_aio_count(aio2));
+		if (memcmp(buf1, buf2, 5) != 0) {
+			note_violation("bad-data:stream payload differs");
 			break;
 		}
 	}
@@ -3081,6 +3098,19 @@ zygote_run(const zy_req *rq, zy_rep *rp)
 		kill(pid, SIGKILL);
 		while (waitpid(pid, &st, 0) < 0 && errno == EINTR) {
 		}
+	}
+	{ // a child that died leaves its ipc sockets / http files behind
+		char path[96];
+		snprintf(path, sizeof(path), "/tmp/c20-%d.sock", (int) pid);
+		unlink(path);
+		snprintf(path, sizeof(path), "/tmp/c20s-%d.sock", (int) pid);
+		unlink(path);
+		snprintf(path, sizeof(path), "/tmp/c20h-%d/f.txt", (int) pid);
+		unlink(path);
+		snprintf(path, sizeof(path), "/tmp/c20h-%d/index.html", (int) pid);
+		unlink(path);
+		snprintf(path, sizeof(path), "/tmp/c20h-%d", (int) pid);
+		rmdir(path);
 	}
 	rp->status = st;
 	if (tmo) {
